@@ -16,7 +16,15 @@
     `… ∨ minIndex = maxInt32` / `… ∨ maxIndex = minInt32`.  With `Bounded32` (all weight on
     int32 indexes, preserved by every operation given int32 arguments, `run_ok32`) the exact
     statements `minIndex_spec` / `maxIndex_spec` hold.
-  * `GrowthOK` abstracts the float computation `denseNewLength`.
+  * `GrowthOK` abstracts the float computation `denseNewLength`: for spans below `2^33` it
+    returns a length that covers the span.  It is PROVED (`DDS.DStore.growthOK` in
+    `DDS.Proofs.Growth`, from `DDS.denseNewLength_ge` of `DDS.Proofs.Num`); it is kept as a hypothesis here only
+    because this file uses core Lean and the float proof needs Mathlib.  The first version of
+    `GrowthOK` had no span bound and was FALSE (`not_growthOK_unbounded`): the float
+    computation under-allocates from spans of about `2^60` on and overflows to `+Inf` for
+    astronomically large ones.  Hence every theorem about an operation that may grow the
+    array carries a span hypothesis `SpanOK` (automatic for int32 indexes:
+    `spanOK_of_bounded32`).
 
   Only core Lean is used (no Mathlib): `omega` for indexes, `grind` for `Rat` arithmetic.
 -/
@@ -25,9 +33,32 @@ import DDS.Model.Dense
 namespace DDS
 namespace DStore
 
-/-- abstract hypothesis on the float computation `denseNewLength` -/
+/-- hypothesis on the float computation `denseNewLength`: for spans below `2^33` it returns
+    a length covering the span.  Proved outright in `DDS.Proofs.Growth` (`growthOK`). -/
 def GrowthOK : Prop :=
+  ∀ a b : Int, a ≤ b → b - a < 2^33 →
+    ∃ L, DStore.denseNewLength a b = some L ∧ b - a + 1 ≤ L
+
+/-- the first version of the hypothesis: no bound on the span -/
+def GrowthOKUnbounded : Prop :=
   ∀ a b : Int, a ≤ b → ∃ L, DStore.denseNewLength a b = some L ∧ b - a + 1 ≤ L
+
+/-- FINDING: the float computation of `getNewLength` under-allocates for huge spans:
+    for the span `[0, 2^62]` (`2^62 + 1` indexes) it returns `2^62`. -/
+theorem denseNewLength_underallocates :
+    DStore.denseNewLength 0 (2^62) = some (2^62) := by decide +kernel
+
+/-- … and for astronomically large spans the float overflows: `int(+Inf)` (modelled as a
+    panic; in Go the conversion is implementation-defined and the following `make` panics) -/
+theorem denseNewLength_overflows : DStore.denseNewLength 0 (2^1100) = none := by decide +kernel
+
+/-- FINDING: the unbounded hypothesis is false, so the theorems that assumed it were vacuous -/
+theorem not_growthOK_unbounded : ¬ GrowthOKUnbounded := by
+  intro h
+  obtain ⟨L, hL, hge⟩ := h 0 (2^62) (by decide)
+  rw [denseNewLength_underallocates] at hL
+  cases hL
+  exact absurd hge (by decide)
 
 /-! ## `at0` and the array primitives -/
 
@@ -381,6 +412,37 @@ structure Inv (s : DStore) : Prop where
 /-- all the weight sits on indexes representable as int32 -/
 def Bounded32 (s : DStore) : Prop := ∀ j, wt s j ≠ 0 → minInt32 ≤ j ∧ j ≤ maxInt32
 
+/-- the window the store would have to cover after absorbing the indexes `[a, b]` spans
+    fewer than `2^33` indexes: what `GrowthOK` needs.  Automatic when all indexes are int32
+    (`spanOK_of_bounded32`); false e.g. for a store holding index `0` asked to absorb `2^62`
+    (`addWithCount_far_panics`). -/
+def SpanOK (s : DStore) (a b : Int) : Prop := max b s.maxIndex - min a s.minIndex < 2^33
+
+/-- under the invariant and `Bounded32` the window bounds are int32 (sentinels included) -/
+theorem Inv.window32 {s : DStore} (h : Inv s) (hb : Bounded32 s) :
+    minInt32 ≤ s.minIndex ∧ s.minIndex ≤ maxInt32 ∧ minInt32 ≤ s.maxIndex ∧ s.maxIndex ≤ maxInt32 := by
+  by_cases h0 : s.count = 0
+  · obtain ⟨_, h1, h2⟩ := h.empty h0
+    rw [h1, h2]; simp only [maxInt32, minInt32]; omega
+  · obtain ⟨_, w2, _, w4, w5⟩ := h.window h0
+    have a : minInt32 ≤ s.minIndex ∧ s.minIndex ≤ maxInt32 := by
+      rcases w4 with hp | hp
+      · exact hb _ (by intro hz; rw [hz] at hp; exact absurd hp (by decide))
+      · rw [hp]; simp only [maxInt32, minInt32]; omega
+    have b : minInt32 ≤ s.maxIndex ∧ s.maxIndex ≤ maxInt32 := by
+      rcases w5 with hp | hp
+      · exact hb _ (by intro hz; rw [hz] at hp; exact absurd hp (by decide))
+      · rw [hp]; simp only [maxInt32, minInt32]; omega
+    exact ⟨a.1, a.2, b.1, b.2⟩
+
+/-- int32 indexes never need a span of `2^33` or more -/
+theorem spanOK_of_bounded32 (s : DStore) (h : Inv s) (hb : Bounded32 s) (a b : Int)
+    (ha : minInt32 ≤ a ∧ a ≤ maxInt32) (hb' : minInt32 ≤ b ∧ b ≤ maxInt32) : SpanOK s a b := by
+  obtain ⟨w1, w2, w3, w4⟩ := h.window32 hb
+  unfold SpanOK
+  simp only [maxInt32, minInt32] at *
+  omega
+
 theorem inv_new : Inv (DStore.new .plain) where
   plain := rfl
   nonneg := by intro j; simp [DStore.new, at0_empty]
@@ -573,7 +635,8 @@ theorem adjust_spec (t : DStore) (hp : t.kind = .plain) (hz : ZeroOut t)
   · simp only [len, hsz]; exact h2
   · simp only [len, hsz]
 
-theorem extendRange_spec (hG : GrowthOK) (s : DStore) (h : Inv s) (a b : Int) (hab : a ≤ b) :
+theorem extendRange_spec (hG : GrowthOK) (s : DStore) (h : Inv s) (a b : Int) (hab : a ≤ b)
+    (hsp : SpanOK s a b) :
     ∃ s', s.extendRange a b = some s' ∧ s'.kind = .plain ∧ s'.count = s.count ∧
       s'.minIndex = min a s.minIndex ∧ s'.maxIndex = max b s.maxIndex ∧
       s'.offset ≤ s'.minIndex ∧ s'.maxIndex < s'.offset + s'.len ∧
@@ -582,7 +645,7 @@ theorem extendRange_spec (hG : GrowthOK) (s : DStore) (h : Inv s) (a b : Int) (h
   by_cases h0 : s.count = 0
   · rw [if_pos h0, getNewLength_plain s h.plain]
     obtain ⟨hsz, hmin, hmax⟩ := h.empty h0
-    obtain ⟨L, hL, hLge⟩ := hG (min a s.minIndex) (max b s.maxIndex) (by omega)
+    obtain ⟨L, hL, hLge⟩ := hG (min a s.minIndex) (max b s.maxIndex) (by omega) hsp
     rw [hL]
     simp only [Option.bind_eq_bind, Option.bind_some]
     rw [grow_spec s L (by omega)]
@@ -609,7 +672,7 @@ theorem extendRange_spec (hG : GrowthOK) (s : DStore) (h : Inv s) (a b : Int) (h
     · rw [if_pos hin]
       exact ⟨_, rfl, h.plain, rfl, rfl, rfl, hin.1, hin.2, fun j => rfl⟩
     · rw [if_neg hin, getNewLength_plain s h.plain]
-      obtain ⟨L, hL, hLge⟩ := hG (min a s.minIndex) (max b s.maxIndex) (by omega)
+      obtain ⟨L, hL, hLge⟩ := hG (min a s.minIndex) (max b s.maxIndex) (by omega) hsp
       rw [hL]
       simp only [Option.bind_eq_bind, Option.bind_some]
       by_cases hgt : L > s.len
@@ -650,7 +713,7 @@ theorem sum_point (a b : Array Rat) (i : Int) (w : Rat) (hi : 0 ≤ i ∧ i < a.
   rw [rsum_add (fun j => at0 a (j - 0)) (fun j => if j = i then w else 0), rsum_point,
     if_pos (by omega)]
 
-theorem normalize_spec (hG : GrowthOK) (s : DStore) (h : Inv s) (i : Int) :
+theorem normalize_spec (hG : GrowthOK) (s : DStore) (h : Inv s) (i : Int) (hsp : SpanOK s i i) :
     ∃ t, s.normalize i = some (t, i - t.offset) ∧ t.kind = .plain ∧ t.count = s.count ∧
       t.minIndex = min i s.minIndex ∧ t.maxIndex = max i s.maxIndex ∧
       t.offset ≤ t.minIndex ∧ t.maxIndex < t.offset + t.len ∧ ∀ j, wt t j = wt s j := by
@@ -658,7 +721,7 @@ theorem normalize_spec (hG : GrowthOK) (s : DStore) (h : Inv s) (i : Int) :
   simp only [h.plain]
   by_cases hc : i < s.minIndex ∨ i > s.maxIndex
   · rw [if_pos hc]
-    obtain ⟨t, ht, r⟩ := extendRange_spec hG s h i i (Int.le_refl _)
+    obtain ⟨t, ht, r⟩ := extendRange_spec hG s h i i (Int.le_refl _) hsp
     refine ⟨t, ?_, r⟩
     rw [ht]; rfl
   · rw [if_neg hc]
@@ -670,7 +733,8 @@ theorem normalize_spec (hG : GrowthOK) (s : DStore) (h : Inv s) (i : Int) :
     obtain ⟨w1, w2, w3, _, _⟩ := h.window h0
     exact ⟨s, rfl, h.plain, rfl, by omega, by omega, w1, w3, fun j => rfl⟩
 
-theorem addWithCount_full (hG : GrowthOK) (s : DStore) (h : Inv s) (i : Int) (w : Rat) (hw : 0 ≤ w) :
+theorem addWithCount_full (hG : GrowthOK) (s : DStore) (h : Inv s) (i : Int) (w : Rat) (hw : 0 ≤ w)
+    (hsp : SpanOK s i i) :
     ∃ s', s.addWithCount i w = some s' ∧ Inv s' ∧
       (∀ j, wt s' j = wt s j + (if j = i then w else 0)) ∧ s'.count = s.count + w ∧
       (w ≠ 0 → s'.minIndex = min i s.minIndex ∧ s'.maxIndex = max i s.maxIndex) := by
@@ -681,7 +745,7 @@ theorem addWithCount_full (hG : GrowthOK) (s : DStore) (h : Inv s) (i : Int) (w 
     intro j; rw [hw0]; split <;> grind
   · rw [if_neg hw0]
     have hwpos : 0 < w := by grind
-    obtain ⟨t, hn, hk, hc, hmi, hma, ho1, ho2, hwt⟩ := normalize_spec hG s h i
+    obtain ⟨t, hn, hk, hc, hmi, hma, ho1, ho2, hwt⟩ := normalize_spec hG s h i hsp
     have hin : 0 ≤ i - t.offset ∧ i - t.offset < t.bins.size := by
       unfold len at ho2; omega
     obtain ⟨nb, hadd, hsz, hat⟩ := addAt_eq t.bins (i - t.offset) w hin
@@ -753,11 +817,13 @@ theorem addWithCount_full (hG : GrowthOK) (s : DStore) (h : Inv s) (i : Int) (w 
       rw [h.outside j (by omega), if_neg (by omega)]
       grind
 
-/-- no panic, invariant kept, exactly one index changes by exactly `w` -/
-theorem addWithCount_ok (hG : GrowthOK) (s : DStore) (h : Inv s) (i : Int) (w : Rat) (hw : 0 ≤ w) :
+/-- no panic, invariant kept, exactly one index changes by exactly `w`
+    (`hsp`: the widened window spans fewer than `2^33` indexes — `spanOK_of_bounded32`) -/
+theorem addWithCount_ok (hG : GrowthOK) (s : DStore) (h : Inv s) (i : Int) (w : Rat) (hw : 0 ≤ w)
+    (hsp : SpanOK s i i) :
     ∃ s', s.addWithCount i w = some s' ∧ Inv s' ∧
       (∀ j, wt s' j = wt s j + (if j = i then w else 0)) ∧ s'.count = s.count + w := by
-  obtain ⟨s', h1, h2, h3, h4, _⟩ := addWithCount_full hG s h i w hw
+  obtain ⟨s', h1, h2, h3, h4, _⟩ := addWithCount_full hG s h i w hw hsp
   exact ⟨s', h1, h2, h3, h4⟩
 
 theorem addWithCount_bounded32 (hG : GrowthOK) (s : DStore) (h : Inv s) (hb : Bounded32 s)
@@ -765,6 +831,7 @@ theorem addWithCount_bounded32 (hG : GrowthOK) (s : DStore) (h : Inv s) (hb : Bo
     ∀ s', s.addWithCount i w = some s' → Bounded32 s' := by
   intro s' hs'
   obtain ⟨s'', h1, _, h2, _⟩ := addWithCount_ok hG s h i w hw
+    (spanOK_of_bounded32 s h hb i i hi hi)
   rw [h1] at hs'
   cases hs'
   intro j hj
@@ -1236,7 +1303,8 @@ theorem mergeSame_cont (s o s1 : DStore) (hs : Inv s) (ho : Inv o) (h0 : o.count
     rw [hs.outside j (by omega), ho.outside j (by omega)]
     grind
 
-theorem mergeSame_ok (hG : GrowthOK) (s o : DStore) (hs : Inv s) (ho : Inv o) :
+theorem mergeSame_ok (hG : GrowthOK) (s o : DStore) (hs : Inv s) (ho : Inv o)
+    (hsp : SpanOK s o.minIndex o.maxIndex) :
     ∃ s', s.mergeSame o = some s' ∧ Inv s' ∧ (∀ j, wt s' j = wt s j + wt o j) ∧
       s'.count = s.count + o.count := by
   unfold mergeSame
@@ -1250,7 +1318,7 @@ theorem mergeSame_ok (hG : GrowthOK) (s o : DStore) (hs : Inv s) (ho : Inv o) :
     obtain ⟨ow1, ow2, ow3, ow4, ow5⟩ := ho.window h0
     by_cases hc : o.minIndex < s.minIndex ∨ o.maxIndex > s.maxIndex
     · obtain ⟨s1, hs1e, hk, hcnt, hmi, hma, ho1, ho2, hwt⟩ :=
-        extendRange_spec hG s hs o.minIndex o.maxIndex ow2
+        extendRange_spec hG s hs o.minIndex o.maxIndex ow2 hsp
       simp only [if_pos hc, hs1e, Option.bind_eq_bind, Option.bind_some, Option.pure_def, hk]
       have key := mergeSame_cont s o s1 hs ho h0 hk hcnt hmi hma ho1 ho2 hwt
       simp only [Option.bind_eq_bind, Option.pure_def, hk] at key
@@ -1269,7 +1337,9 @@ theorem mergeSame_ok (hG : GrowthOK) (s o : DStore) (hs : Inv s) (ho : Inv o) :
 theorem mergeSame_bounded32 (hG : GrowthOK) (s o : DStore) (hs : Inv s) (ho : Inv o)
     (bs : Bounded32 s) (bo : Bounded32 o) : ∀ s', s.mergeSame o = some s' → Bounded32 s' := by
   intro s' hs'
+  obtain ⟨ow1, ow2, ow3, ow4⟩ := ho.window32 bo
   obtain ⟨s'', h1, _, h2, _⟩ := mergeSame_ok hG s o hs ho
+    (spanOK_of_bounded32 s hs bs _ _ ⟨ow1, ow2⟩ ⟨ow3, ow4⟩)
   rw [h1] at hs'
   cases hs'
   intro j hj
@@ -1278,21 +1348,27 @@ theorem mergeSame_bounded32 (hG : GrowthOK) (s o : DStore) (hs : Inv s) (ho : In
   · exact bo j (by grind)
   · exact bs j h3
 
-theorem mergeBins_ok (hG : GrowthOK) (s : DStore) (h : Inv s) (l : List (Int × Rat))
-    (hl : ∀ p ∈ l, 0 ≤ p.2) :
+/-- the fallback merge `other.ForEach(s.AddWithCount)`; the bins have int32 indexes (what
+    every store reports) and the receiver holds int32 indexes -/
+theorem mergeBins_ok (hG : GrowthOK) (s : DStore) (h : Inv s) (hb : Bounded32 s)
+    (l : List (Int × Rat)) (hl : ∀ p ∈ l, 0 ≤ p.2)
+    (hl32 : ∀ p ∈ l, minInt32 ≤ p.1 ∧ p.1 ≤ maxInt32) :
     ∃ s', s.mergeBins l = some s' ∧ Inv s' ∧
       (∀ j, wt s' j = wt s j + ((l.filter (fun p => p.1 = j)).map (·.2)).sum) ∧
-      s'.count = s.count + (l.map (·.2)).sum := by
+      s'.count = s.count + (l.map (·.2)).sum ∧ Bounded32 s' := by
   unfold mergeBins
   induction l generalizing s with
   | nil =>
-    refine ⟨s, rfl, h, ?_, ?_⟩
+    refine ⟨s, rfl, h, ?_, ?_, hb⟩
     · intro j; simp; grind
     · simp; grind
   | cons p l ih =>
     obtain ⟨s1, h1, hi1, hw1, hc1⟩ := addWithCount_ok hG s h p.1 p.2 (hl p (by simp))
-    obtain ⟨s2, h2, hi2, hw2, hc2⟩ := ih s1 hi1 (fun q hq => hl q (by simp [hq]))
-    refine ⟨s2, ?_, hi2, ?_, ?_⟩
+      (spanOK_of_bounded32 s h hb _ _ (hl32 p (by simp)) (hl32 p (by simp)))
+    have hb1 := addWithCount_bounded32 hG s h hb p.1 p.2 (hl p (by simp)) (hl32 p (by simp)) s1 h1
+    obtain ⟨s2, h2, hi2, hw2, hc2, hb2⟩ := ih s1 hi1 hb1 (fun q hq => hl q (by simp [hq]))
+      (fun q hq => hl32 q (by simp [hq]))
+    refine ⟨s2, ?_, hi2, ?_, ?_, hb2⟩
     · rw [List.foldlM_cons, h1]; exact h2
     · intro j
       rw [hw2, hw1, List.filter_cons]
@@ -1423,7 +1499,7 @@ theorem minIndex_counterexample (hG : GrowthOK) :
     ∃ s', (DStore.new .plain).addWithCount (maxInt32 + 1) 1 = some s' ∧
       s'.minIndex? = some maxInt32 ∧ wt s' maxInt32 = 0 ∧ wt s' (maxInt32 + 1) = 1 := by
   obtain ⟨s', h1, h2, h3, h4, h5⟩ :=
-    addWithCount_full hG (DStore.new .plain) inv_new (maxInt32 + 1) 1 (by decide)
+    addWithCount_full hG (DStore.new .plain) inv_new (maxInt32 + 1) 1 (by decide) (by unfold SpanOK; decide)
   have hmin : s'.minIndex = maxInt32 := by
     rw [(h5 (by decide)).1]; simp only [DStore.new, maxInt32]; omega
   have hw0 : ∀ j, wt (DStore.new .plain) j = 0 := fun j => by simp [wt, DStore.new, at0_empty]
@@ -1440,7 +1516,7 @@ theorem maxIndex_counterexample (hG : GrowthOK) :
     ∃ s', (DStore.new .plain).addWithCount (minInt32 - 1) 1 = some s' ∧
       s'.maxIndex? = some minInt32 ∧ wt s' minInt32 = 0 ∧ wt s' (minInt32 - 1) = 1 := by
   obtain ⟨s', h1, h2, h3, h4, h5⟩ :=
-    addWithCount_full hG (DStore.new .plain) inv_new (minInt32 - 1) 1 (by decide)
+    addWithCount_full hG (DStore.new .plain) inv_new (minInt32 - 1) 1 (by decide) (by unfold SpanOK; decide)
   have hmax : s'.maxIndex = minInt32 := by
     rw [(h5 (by decide)).2]; simp only [DStore.new, minInt32]; omega
   have hw0 : ∀ j, wt (DStore.new .plain) j = 0 := fun j => by simp [wt, DStore.new, at0_empty]
@@ -1466,45 +1542,16 @@ def applyOp (s : DStore) : Op → Option DStore
   | .clear => some s.clear
   | .reweight w => if w ≤ 0 ∨ w = 1 then some s else s.reweight w
 
-theorem applyOp_ok (hG : GrowthOK) (s : DStore) (h : Inv s) (op : Op)
-    (hop : match op with | .add _ w => 0 ≤ w | _ => True) :
-    ∃ s', applyOp s op = some s' ∧ Inv s' := by
-  cases op with
-  | add i w =>
-    obtain ⟨s', h1, h2, _⟩ := addWithCount_ok hG s h i w hop
-    exact ⟨s', h1, h2⟩
-  | clear => exact ⟨s.clear, rfl, inv_clear s h⟩
-  | reweight w =>
-    simp only [applyOp]
-    by_cases hc : w ≤ 0 ∨ w = 1
-    · rw [if_pos hc]; exact ⟨s, rfl, h⟩
-    · rw [if_neg hc]
-      obtain ⟨s', h1, h2, _⟩ := reweight_ok s h w (by grind)
-      exact ⟨s', h1, h2⟩
-
-theorem run_from (hG : GrowthOK) (ops : List Op) (s : DStore) (h : Inv s)
-    (hops : ∀ op ∈ ops, match op with | .add _ w => 0 ≤ w | _ => True) :
-    ∃ s', ops.foldlM applyOp s = some s' ∧ Inv s' := by
-  induction ops generalizing s with
-  | nil => exact ⟨s, rfl, h⟩
-  | cons op ops ih =>
-    obtain ⟨s1, h1, hi1⟩ := applyOp_ok hG s h op (hops op (by simp))
-    obtain ⟨s2, h2, hi2⟩ := ih s1 hi1 (fun q hq => hops q (by simp [hq]))
-    exact ⟨s2, by rw [List.foldlM_cons, h1]; exact h2, hi2⟩
-
-theorem run_ok (hG : GrowthOK) (ops : List Op)
-    (hops : ∀ op ∈ ops, match op with | .add _ w => 0 ≤ w | _ => True) :
-    ∃ s, ops.foldlM applyOp (DStore.new .plain) = some s ∧ Inv s :=
-  run_from hG ops _ inv_new hops
-
-/-- with int32 indexes only, every reachable state also satisfies `Bounded32`, so the
-    `MinIndex`/`MaxIndex` observers are exact (`minIndex_spec`, `maxIndex_spec`) -/
+/-- with int32 indexes every operation is safe and every reachable state also satisfies
+    `Bounded32`, so the `MinIndex`/`MaxIndex` observers are exact (`minIndex_spec`,
+    `maxIndex_spec`) -/
 theorem applyOp_ok32 (hG : GrowthOK) (s : DStore) (h : Inv s) (hb : Bounded32 s) (op : Op)
     (hop : match op with | .add i w => 0 ≤ w ∧ minInt32 ≤ i ∧ i ≤ maxInt32 | _ => True) :
     ∃ s', applyOp s op = some s' ∧ Inv s' ∧ Bounded32 s' := by
   cases op with
   | add i w =>
     obtain ⟨s', h1, h2, _⟩ := addWithCount_ok hG s h i w hop.1
+      (spanOK_of_bounded32 s h hb i i hop.2 hop.2)
     exact ⟨s', h1, h2, addWithCount_bounded32 hG s h hb i w hop.1 hop.2 s' h1⟩
   | clear => exact ⟨s.clear, rfl, inv_clear s h, clear_bounded32 s⟩
   | reweight w =>
@@ -1516,23 +1563,136 @@ theorem applyOp_ok32 (hG : GrowthOK) (s : DStore) (h : Inv s) (hb : Bounded32 s)
       obtain ⟨s', h1, h2, _⟩ := reweight_ok s h w hw
       exact ⟨s', h1, h2, reweight_bounded32 s h hb w hw s' h1⟩
 
-theorem run_ok32 (hG : GrowthOK) (ops : List Op)
+theorem run_from32 (hG : GrowthOK) (ops : List Op) (s : DStore) (h : Inv s) (hb : Bounded32 s)
     (hops : ∀ op ∈ ops, match op with
       | .add i w => 0 ≤ w ∧ minInt32 ≤ i ∧ i ≤ maxInt32 | _ => True) :
-    ∃ s, ops.foldlM applyOp (DStore.new .plain) = some s ∧ Inv s ∧ Bounded32 s := by
-  suffices H : ∀ (ops : List Op) (s : DStore), Inv s → Bounded32 s →
-      (∀ op ∈ ops, match op with
-        | .add i w => 0 ≤ w ∧ minInt32 ≤ i ∧ i ≤ maxInt32 | _ => True) →
-      ∃ s', ops.foldlM applyOp s = some s' ∧ Inv s' ∧ Bounded32 s' from
-    H ops _ inv_new bounded32_new hops
-  intro ops
-  induction ops with
-  | nil => intro s h hb _; exact ⟨s, rfl, h, hb⟩
+    ∃ s', ops.foldlM applyOp s = some s' ∧ Inv s' ∧ Bounded32 s' := by
+  induction ops generalizing s with
+  | nil => exact ⟨s, rfl, h, hb⟩
   | cons op ops ih =>
-    intro s h hb hops
     obtain ⟨s1, h1, hi1, hb1⟩ := applyOp_ok32 hG s h hb op (hops op (by simp))
     obtain ⟨s2, h2, hi2, hb2⟩ := ih s1 hi1 hb1 (fun q hq => hops q (by simp [hq]))
     exact ⟨s2, by rw [List.foldlM_cons, h1]; exact h2, hi2, hb2⟩
+
+theorem run_ok32 (hG : GrowthOK) (ops : List Op)
+    (hops : ∀ op ∈ ops, match op with
+      | .add i w => 0 ≤ w ∧ minInt32 ≤ i ∧ i ≤ maxInt32 | _ => True) :
+    ∃ s, ops.foldlM applyOp (DStore.new .plain) = some s ∧ Inv s ∧ Bounded32 s :=
+  run_from32 hG ops _ inv_new bounded32_new hops
+
+/-- (int32 indexes are needed for safety itself, not only for exactness: see
+    `addWithCount_far_panics`) -/
+theorem applyOp_ok (hG : GrowthOK) (s : DStore) (h : Inv s) (hb : Bounded32 s) (op : Op)
+    (hop : match op with | .add i w => 0 ≤ w ∧ minInt32 ≤ i ∧ i ≤ maxInt32 | _ => True) :
+    ∃ s', applyOp s op = some s' ∧ Inv s' := by
+  obtain ⟨s', h1, h2, _⟩ := applyOp_ok32 hG s h hb op hop
+  exact ⟨s', h1, h2⟩
+
+theorem run_from (hG : GrowthOK) (ops : List Op) (s : DStore) (h : Inv s) (hb : Bounded32 s)
+    (hops : ∀ op ∈ ops, match op with
+      | .add i w => 0 ≤ w ∧ minInt32 ≤ i ∧ i ≤ maxInt32 | _ => True) :
+    ∃ s', ops.foldlM applyOp s = some s' ∧ Inv s' := by
+  obtain ⟨s', h1, h2, _⟩ := run_from32 hG ops s h hb hops
+  exact ⟨s', h1, h2⟩
+
+/-- every history of adds (int32 indexes, non-negative weights), clears and reweightings
+    started from `NewDenseStore()` succeeds and keeps the invariant -/
+theorem run_ok (hG : GrowthOK) (ops : List Op)
+    (hops : ∀ op ∈ ops, match op with
+      | .add i w => 0 ≤ w ∧ minInt32 ≤ i ∧ i ≤ maxInt32 | _ => True) :
+    ∃ s, ops.foldlM applyOp (DStore.new .plain) = some s ∧ Inv s :=
+  run_from hG ops _ inv_new bounded32_new hops
+
+/-! ## the finding: far-apart indexes make the dense store panic
+
+`extendRange` asks `getNewLength` for an array covering the whole span.  For the indexes `0`
+and `2^62` the float computation returns `2^62` — one short (`denseNewLength_underallocates`) —
+and the subsequent `centerCounts`/`shiftCounts` slice bounds are violated.  (With the real
+allocator `make([]float64, 2^62)` fails first; either way the process dies.)  This is why the
+safety theorems above are stated for int32 indexes. -/
+
+/-- `centerCounts` without the assumption that the new range fits: the array is re-centred on
+    the middle of `[newMin, newMax]` whenever the OLD window still fits after the shift -/
+theorem centerCounts_shift (s : DStore) (newMin newMax : Int) (hz : ZeroOut s)
+    (hmm : s.minIndex ≤ s.maxIndex) (hlo : s.offset ≤ s.minIndex)
+    (hhi : s.maxIndex < s.offset + s.len) (hd : 0 ≤ newMax - newMin + 1)
+    (h1 : 0 ≤ s.minIndex - s.offset + (s.offset + s.len / 2 - (newMin + (newMax - newMin + 1) / 2)))
+    (h2 : s.maxIndex - s.offset + (s.offset + s.len / 2 - (newMin + (newMax - newMin + 1) / 2))
+      < s.len) :
+    ∃ nb, s.centerCounts newMin newMax =
+        some { s with bins := nb, offset := newMin + (newMax - newMin + 1) / 2 - s.len / 2,
+                      minIndex := newMin, maxIndex := newMax } ∧ nb.size = s.bins.size := by
+  have hl : 0 ≤ s.len := by unfold len; omega
+  obtain ⟨nb, hsc, hsz, _⟩ := shiftCounts_spec s
+    (s.offset + s.len / 2 - (newMin + (newMax - newMin + 1) / 2)) hz hmm hlo hhi h1 h2
+  refine ⟨nb, ?_, hsz⟩
+  simp only [centerCounts]
+  rw [Int.tdiv_eq_ediv_of_nonneg hd, Int.tdiv_eq_ediv_of_nonneg hl, hsc]
+  simp only [Option.bind_eq_bind, Option.bind_some, Option.pure_def]
+  congr 2
+  omega
+
+/-- a store whose only bin is index `0` panics when asked to absorb index `2^62`:
+    `getNewLength` returns `2^62` for the `2^62 + 1` indexes `[0, 2^62]`, the array is
+    re-centred with offset `0`, and `bins[2^62]` is out of range -/
+theorem addWithCount_far_none (s : DStore) (h : Inv s) (h0 : s.count ≠ 0) (hmin : s.minIndex = 0)
+    (hmax : s.maxIndex = 0) (hlen : s.len ≤ 2^61) : s.addWithCount (2^62) 1 = none := by
+  -- keep the literal `2^62` opaque (`simp` would evaluate it and the kernel re-check is deep)
+  obtain ⟨B, hB⟩ : ∃ B : Int, B = 2^62 := ⟨_, rfl⟩
+  have hdn : denseNewLength 0 B = some B := by rw [hB]; exact denseNewLength_underallocates
+  rw [← hB]
+  obtain ⟨w1, w2, w3, _, _⟩ := h.window h0
+  have hl0 : 0 ≤ s.len := by unfold len; omega
+  have hmn : min B s.minIndex = 0 := by omega
+  have hmx : max B s.maxIndex = B := by omega
+  -- the grown store handed to `adjust`
+  have hlen' : ({ s with bins := s.bins ++ Array.replicate (B - s.len).toNat 0 } : DStore).len
+      = B := by
+    simp only [len, Array.size_append, Array.size_replicate] at hlen hl0 ⊢
+    omega
+  obtain ⟨nb, hcc, hsz⟩ := centerCounts_shift
+    { s with bins := s.bins ++ Array.replicate (B - s.len).toNat 0 } 0 B
+    (by intro i hi; simp only [wt, at0_append_replicate]; exact h.outside i hi)
+    w2 w1 (by rw [hlen']; simp only; omega) (by omega)
+    (by rw [hlen']; simp only [hmin]; omega) (by rw [hlen']; simp only [hmax]; omega)
+  have hoff : (0 : Int) + (B - 0 + 1) / 2 - B / 2 = 0 := by omega
+  have hext : s.extendRange B B = some
+      { s with bins := nb, offset := 0, minIndex := 0, maxIndex := B } := by
+    simp only [extendRange]
+    rw [if_neg h0, hmn, hmx, if_neg (by omega), getNewLength_plain s h.plain, hdn]
+    simp only [Option.bind_eq_bind, Option.bind_some]
+    rw [if_pos (by omega), grow_spec s _ (by omega)]
+    simp only [Option.bind_some]
+    rw [adjust_plain { s with bins := s.bins ++ Array.replicate (B - s.len).toNat 0 }
+      h.plain, hcc, hlen', hoff]
+  unfold addWithCount
+  rw [if_neg (by decide)]
+  unfold normalize
+  simp only [h.plain]
+  rw [if_pos (Or.inr (by omega)), hext]
+  simp only [Option.bind_eq_bind, Option.bind_some, Option.pure_def]
+  have hnb : (nb.size : Int) = B := by
+    rw [hsz]; exact hlen'
+  rw [addAt_none nb _ 1 (by omega)]
+  rfl
+
+/-- FINDING (concrete): add index `0`, then index `2^62`, to a fresh dense store — the second
+    `Add` panics -/
+theorem addWithCount_far_panics (hG : GrowthOK) :
+    ∃ s, (DStore.new .plain).addWithCount 0 1 = some s ∧ Inv s ∧
+      s.addWithCount (2^62) 1 = none := by
+  obtain ⟨s, h1, h2, _, h4, h5⟩ :=
+    addWithCount_full hG (DStore.new .plain) inv_new 0 1 (by decide) (by unfold SpanOK; decide)
+  have hsz : ((DStore.new .plain).addWithCount 0 1).map (fun t => t.bins.size) = some 64 := by
+    decide +kernel
+  rw [h1] at hsz
+  have hsz' : s.bins.size = 64 := Option.some.inj hsz
+  obtain ⟨hmi, hma⟩ := h5 (by decide)
+  refine ⟨s, h1, h2, addWithCount_far_none s h2 ?_ ?_ ?_ ?_⟩
+  · rw [h4]; simp only [DStore.new]; decide +kernel
+  · rw [hmi]; simp only [DStore.new]; decide
+  · rw [hma]; simp only [DStore.new]; decide
+  · simp only [len, hsz']; decide
 
 end DStore
 end DDS
